@@ -48,7 +48,7 @@ LAYOUTS = {
 YLAYOUT = {"one": {"time": 12, "station": 4}, "samples": {"time": 4, "station": 4}, "feature": {"time": 12, "station": 2}, "both": {"time": 6, "station": 2}, "element": {"time": 1, "station": 1}}
 
 MODELS_Q = ["EOF", "MCA", "EOFRotator"]
-MODELS_T = ["EOF", "EOF+kwargs", "SparsePCA", "POP", "OPA", "ExtendedEOF", "ExtendedEOF+pca", "EOFRotator", "EOFRotator2", "MCA", "CPCCA", "MCARotator", "MCARotator2"]
+MODELS_T = ["EOF", "EOF+kwargs", "SparsePCA", "POP", "POP-nopca", "OPA", "ExtendedEOF", "ExtendedEOF+pca", "EOFRotator", "EOFRotator2", "MCA", "CPCCA", "MCARotator", "MCARotator2"]
 CROSS = {"MCA", "CPCCA", "MCARotator", "MCARotator2"}
 ROTATORS = {"EOFRotator", "EOFRotator2", "MCARotator", "MCARotator2"}
 
@@ -92,6 +92,9 @@ def build(model, compute, check_nans, deferred):
         m = xe.single.SparsePCA(n_modes=2, alpha=1e-3, max_iter=4, **kw)
     elif model == "POP":
         m = xe.single.POP(n_modes=2, n_pca_modes=3, **kw)
+    elif model == "POP-nopca":
+        # no PCA step: the POP system is solved on the raw, user-chunked (sample x feature) matrix
+        m = xe.single.POP(n_modes=2, use_pca=False, **kw)
     elif model == "OPA":
         m = xe.single.OPA(n_modes=2, tau_max=3, n_pca_modes=3, **kw)
     elif model == "ExtendedEOF":
